@@ -430,6 +430,8 @@ def _glob_sites(repo, A, pm, f, binding=None, depth=0):
                     parts.append(v.value)
                 elif isinstance(v, ast.FormattedValue) and dotted(v.value) in binding:
                     parts.append(str(binding[dotted(v.value)]))
+                elif isinstance(v, ast.FormattedValue) and isinstance(v.value, ast.Constant):
+                    parts.append(str(v.value.value))
                 else:
                     return None
             return "".join(parts)
